@@ -178,7 +178,7 @@ def _edges_forward(idx):
     f = idx.method(HEX, "_indicesAndEdgeFromRingAndPos")
     body = [s for s in f.node.body if not (isinstance(s, ast.Expr) and isinstance(s.value, ast.Constant))]
     pre = [norm(s) for s in body[:2]]
-    if pre != ["ring = ring - 1", "pos = position - 1"]:
+    if sorted(pre) != sorted(["ring = ring - 1", "pos = position - 1"]):
         raise AnalysisError(f"_indicesAndEdgeFromRingAndPos: zero-based shift not found ({pre})")
     dm = next((s for s in body if isinstance(s, ast.Assign) and isinstance(s.value, ast.Call) and dotted(s.value.func) == "divmod"), None)
     if dm is None or norm(dm) != "edge, offset = divmod(pos, ring)":
